@@ -880,8 +880,10 @@ func (c *schedConn) PrepareContext(ctx context.Context, q string) (driver.Stmt, 
 	}
 	return &schedStmt{st.(*sqlite3.SQLiteStmt), q}, nil
 }
-func (c *schedConn) Close() error              { return c.c.Close() }
-func (c *schedConn) Begin() (driver.Tx, error) { return c.BeginTx(context.Background(), driver.TxOptions{}) }
+func (c *schedConn) Close() error { return c.c.Close() }
+func (c *schedConn) Begin() (driver.Tx, error) {
+	return c.BeginTx(context.Background(), driver.TxOptions{})
+}
 func (c *schedConn) BeginTx(ctx context.Context, o driver.TxOptions) (driver.Tx, error) {
 	var tx driver.Tx
 	err := dbOp("BEGIN", func() (e error) { tx, e = c.c.BeginTx(ctx, o); return })
